@@ -488,6 +488,8 @@ impl WalRecord {
     }
 }
 
+const MAX_WAL_RECORD_LEN: u32 = 1024 * 1024; // 1MB
+
 #[derive(Debug)]
 pub struct Wal {
     path: PathBuf,
@@ -524,6 +526,10 @@ impl Wal {
         };
         let body = record.encode_body()?;
         let len = u32::try_from(body.len()).map_err(|_| Error::WalRecordTooLarge(u32::MAX))?;
+        if len > MAX_WAL_RECORD_LEN {
+            // The reader refuses longer records; never write what cannot be replayed.
+            return Err(Error::WalRecordTooLarge(len));
+        }
         let crc = crc32(&body);
 
         let offset = file.metadata()?.len();
@@ -768,9 +774,10 @@ impl WalReader {
             return Ok(None);
         };
 
-        const MAX_WAL_RECORD_LEN: u32 = 1024 * 1024; // 1MB
-        if len > MAX_WAL_RECORD_LEN {
-            return Err(Error::WalRecordTooLarge(len));
+        // `append` never writes an empty or oversized record, so such a length field can
+        // only be a torn or garbage tail (zero fill, random bytes): end of log.
+        if len == 0 || len > MAX_WAL_RECORD_LEN {
+            return Ok(None);
         }
 
         let Some(crc) = self.try_read_u32()? else {
